@@ -341,7 +341,7 @@ class OLEQ:
         q /= np.linalg.norm(q)
         last_q = np.array([1., 0., 0., 0.])
         i = 0
-        while np.linalg.norm(q-last_q) > 1e-8 and i <= 20:
+        while np.linalg.norm(q-last_q) > 1e-12 and i <= 10000:  # Iterate until convergence
             last_q = q
             q = R @ last_q                      # (eq. 24)
             q /= np.linalg.norm(q)
